@@ -2,6 +2,7 @@
 package main
 
 import (
+	"context"
 	"fmt"
 	"os"
 	"path/filepath"
@@ -62,7 +63,9 @@ type listQ interface {
 	prior(x int) (string, bool)
 	addc(x int) (string, bool)
 	priorc(x int) (string, bool)
-	pop() string // may block
+	addany(x int) (string, bool)  // the *Anyway add on the request list (retry pause 2 ms); false: no such method
+	addcany(x int) (string, bool) // … on the control list
+	pop() string                  // may block
 	popany() (string, bool)
 	release() // hand a sentinel to one parked consumer
 	close()
@@ -103,7 +106,11 @@ func (a qQ) prior(x int) (string, bool) {
 }
 func (a qQ) addc(int) (string, bool)   { return "", false }
 func (a qQ) priorc(int) (string, bool) { return "", false }
-func (a qQ) pop() string               { v, e := a.q.Pop(); return valName(v, e, pq.ErrClosed) }
+func (a qQ) addany(x int) (string, bool) {
+	return errName(a.q.AddReqAnyway(x, 2*time.Millisecond), pq.ErrClosed, pq.ErrReqQFull, nil), true
+}
+func (a qQ) addcany(x int) (string, bool) { return "", false }
+func (a qQ) pop() string                  { v, e := a.q.Pop(); return valName(v, e, pq.ErrClosed) }
 func (a qQ) popany() (string, bool) {
 	v, e := a.q.PopAnyway()
 	return valName(v, e, pq.ErrClosed), true
@@ -119,7 +126,11 @@ func (a asyncQ) prior(x int) (string, bool) {
 }
 func (a asyncQ) addc(int) (string, bool)   { return "", false }
 func (a asyncQ) priorc(int) (string, bool) { return "", false }
-func (a asyncQ) pop() string               { v, e := a.q.Pop(); return valName(v, e, async.ErrClosed) }
+func (a asyncQ) addany(x int) (string, bool) {
+	return errName(a.q.AddAnyway(x, 2*time.Millisecond), async.ErrClosed, async.ErrFull, nil), true
+}
+func (a asyncQ) addcany(x int) (string, bool) { return "", false }
+func (a asyncQ) pop() string                  { v, e := a.q.Pop(); return valName(v, e, async.ErrClosed) }
 func (a asyncQ) popany() (string, bool) {
 	v, e := a.q.PopAnyway()
 	return valName(v, e, async.ErrClosed), true
@@ -135,7 +146,11 @@ func (a muxQ) prior(x int) (string, bool) {
 }
 func (a muxQ) addc(int) (string, bool)   { return "", false }
 func (a muxQ) priorc(int) (string, bool) { return "", false }
-func (a muxQ) pop() string               { v, e := a.q.Pop(); return valName(v, e, mux.ErrClosed) }
+func (a muxQ) addany(x int) (string, bool) {
+	return errName(a.q.AddReqAnyway(x, 2*time.Millisecond), mux.ErrClosed, mux.ErrQFull, nil), true
+}
+func (a muxQ) addcany(x int) (string, bool) { return "", false }
+func (a muxQ) pop() string                  { v, e := a.q.Pop(); return valName(v, e, mux.ErrClosed) }
 func (a muxQ) popany() (string, bool) {
 	v, e := a.q.PopAnyway()
 	return valName(v, e, mux.ErrClosed), true
@@ -157,6 +172,12 @@ func (a mqQ) addc(x int) (string, bool) {
 func (a mqQ) priorc(x int) (string, bool) {
 	return errName(a.q.AddPriorCtrl(x), mq.ErrClosed, mq.ErrReqQFull, mq.ErrCtrlQFull), true
 }
+func (a mqQ) addany(x int) (string, bool) {
+	return errName(a.q.AddReqAnyway(x, 2*time.Millisecond), mq.ErrClosed, mq.ErrReqQFull, mq.ErrCtrlQFull), true
+}
+func (a mqQ) addcany(x int) (string, bool) {
+	return errName(a.q.AddCtrlAnyway(x, 2*time.Millisecond), mq.ErrClosed, mq.ErrReqQFull, mq.ErrCtrlQFull), true
+}
 func (a mqQ) pop() string { v, e := a.q.Pop(); return valName(v, e, mq.ErrClosed) }
 func (a mqQ) popany() (string, bool) {
 	v, e := a.q.PopAnyway()
@@ -167,10 +188,12 @@ func (a mqQ) close()   { a.q.Close() }
 
 type syncQ struct{ q *syncq.SyncQueue }
 
-func (a syncQ) add(x int) string          { a.q.Push(x); return "ok" }
-func (a syncQ) prior(int) (string, bool)  { return "", false }
-func (a syncQ) addc(int) (string, bool)   { return "", false }
-func (a syncQ) priorc(int) (string, bool) { return "", false }
+func (a syncQ) add(x int) string             { a.q.Push(x); return "ok" }
+func (a syncQ) prior(int) (string, bool)     { return "", false }
+func (a syncQ) addc(int) (string, bool)      { return "", false }
+func (a syncQ) priorc(int) (string, bool)    { return "", false }
+func (a syncQ) addany(x int) (string, bool)  { return "", false }
+func (a syncQ) addcany(x int) (string, bool) { return "", false }
 func (a syncQ) pop() string {
 	v := a.q.Pop()
 	if v == nil {
@@ -409,6 +432,48 @@ func (r *runner) line(l string) string {
 			}
 		}
 		return res
+	case "addany", "addcany":
+		if len(f) != 3 || (f[2] != "p" && f[2] != "c") {
+			return "bad-op"
+		}
+		x, ok := atoiStrict(f[1], false)
+		if !ok || isSync || (f[0] == "addcany" && !isMQ) {
+			return "bad-op"
+		}
+		return r.addAnyway(f[0] == "addcany", x, f[2] == "p")
+	case "size?":
+		if len(f) != 1 {
+			return "bad-op"
+		}
+		q, ok := r.lq.(asyncQ)
+		if !ok {
+			return "bad-op"
+		}
+		n := q.q.Size()
+		if n != sh.rCap {
+			r.hit("Size", "value", fmt.Sprintf("Size()=%d for a queue created with capacity %d", n, sh.rCap))
+		}
+		return strconv.Itoa(n)
+	case "waitclose", "waitclear":
+		if len(f) != 1 {
+			return "bad-op"
+		}
+		var call func(context.Context) error
+		switch q := r.lq.(type) {
+		case muxQ:
+			if f[0] == "waitclose" {
+				call = q.q.WaitClose
+			}
+		case mqQ:
+			call = q.q.WaitClose
+			if f[0] == "waitclear" {
+				call = q.q.WaitClear
+			}
+		}
+		if call == nil {
+			return "bad-op"
+		}
+		return r.waitChan(f[0], call)
 	case "pop", "popany":
 		if len(f) != 1 {
 			return "bad-op"
@@ -514,6 +579,153 @@ func (r *runner) line(l string) string {
 		return strconv.Itoa(n)
 	}
 	return "bad-op"
+}
+
+// waitChan: WaitClose / WaitClear with a cancellable context. Returns at once iff the queue is closed / cleared; a
+// blocked call is seen parked by a goroutine snapshot and then released by cancelling its context.
+func (r *runner) waitChan(op string, call func(context.Context) error) string {
+	sh := &r.sh
+	ctx, cancel := context.WithCancel(context.Background())
+	defer cancel()
+	t := r.s.Go(op, func() string {
+		if err := call(ctx); err != nil {
+			return "err:" + err.Error()
+		}
+		return "ok"
+	})
+	for i := 0; i < 200; i++ {
+		if d, _ := t.Done(); d {
+			break
+		}
+		runtime.Gosched()
+	}
+	if d, _ := t.Done(); !d {
+		if err := c12sched.Settle(10 * time.Second); err != nil {
+			r.dead = "harness:" + err.Error()
+			return "harness-error"
+		}
+	}
+	res := "would-block"
+	if d, out := t.Done(); d {
+		res = out
+	} else {
+		cancel()
+		if err := c12sched.Settle(10 * time.Second); err != nil {
+			r.dead = "harness:" + err.Error()
+			return "harness-error"
+		}
+		if d, out := t.Done(); !d || out != "err:context canceled" {
+			r.hit(op, "cancel", fmt.Sprintf("a blocked %s did not return ctx.Err() after cancel: done=%v %s", op, d, out))
+		}
+	}
+	want := sh.closed
+	site := "WaitClose"
+	if op == "waitclear" {
+		want, site = sh.clear, "WaitClear"
+	}
+	if want && res != "ok" {
+		r.hit(site, "blocks-although-signalled", fmt.Sprintf("%s on a %s queue: %s", site, map[bool]string{true: "cleared", false: "closed"}[op == "waitclear"], res))
+	}
+	if !want && res != "would-block" {
+		r.hit(site, "returns-early", fmt.Sprintf("%s returned %s although the queue is not %s", site, res, map[bool]string{true: "cleared", false: "closed"}[op == "waitclear"]))
+	}
+	return res
+}
+
+var neverEnding int // retry loops that did not end within the guard (each leaks a goroutine polling every 2 ms)
+
+// addAnyway drives AddReqAnyway / AddAnyway / AddCtrlAnyway. The call runs in its own goroutine; it either returns or is
+// seen (goroutine snapshot) asleep in its retry loop, i.e. it was refused for capacity at least once. The retry loop is
+// then resolved as the script line says: `p` — PopAnyway as many items as the reference says are in the way, `c` —
+// Close; afterwards the call must return (3 s guard — reached only by a call that never terminates).
+func (r *runner) addAnyway(ctrl bool, x int, resolvePop bool) string {
+	sh := &r.sh
+	site := map[string]string{"q": "AddReqAnyway", "async": "AddAnyway", "mux": "AddReqAnyway", "mq": "AddReqAnyway"}[r.kind]
+	if ctrl {
+		site = "AddCtrlAnyway"
+	}
+	lst, cp := &sh.req, sh.rCap
+	if ctrl {
+		lst, cp = &sh.ctrl, sh.ctrlCap
+	}
+	full := cp > 0 && len(*lst) >= cp
+	t := r.s.Go("addany", func() string {
+		if ctrl {
+			s, _ := r.lq.addcany(x)
+			return s
+		}
+		s, _ := r.lq.addany(x)
+		return s
+	})
+	done := func() bool { d, _ := t.Done(); return d }
+	retrying, err := c12sched.DoneOrRetrying(done, []string{"AddReqAnyway", "AddAnyway", "AddCtrlAnyway"}, 10*time.Second)
+	if err != nil {
+		r.dead = "harness:" + err.Error()
+		return "harness-error"
+	}
+	if !retrying {
+		_, res := t.Done()
+		switch {
+		case sh.closed:
+			if res != "closed" {
+				r.hit(site, "closed-queue-accepts-add", fmt.Sprintf("%s on a closed queue returned %s", site, res))
+			}
+		case full:
+			r.hit(site, "returns-while-full", fmt.Sprintf("%s returned %s with %d items, capacity %d, without waiting for room", site, res, len(*lst), cp))
+		case res != "ok":
+			r.hit(site, "result", fmt.Sprintf("%s on an open queue below capacity returned %s", site, res))
+		}
+		if res == "ok" {
+			*lst = append(*lst, x)
+		}
+		return res
+	}
+	if sh.closed || !full {
+		r.hit(site, "retries-although-not-full", fmt.Sprintf("%s keeps retrying with %d items, capacity %d, closed=%v", site, len(*lst), cp, sh.closed))
+	}
+	var popped []string
+	if resolvePop {
+		k := len(*lst) - cp + 1
+		if !ctrl {
+			k += len(sh.ctrl) // PopAnyway hands out control items first
+		}
+		for i := 0; i < k && len(sh.ctrl)+len(sh.req) > 0; i++ {
+			res, _ := r.lq.popany()
+			r.checkPop("popany", res, true, false, r.kind == "mq")
+			popped = append(popped, res)
+		}
+	} else {
+		r.lq.close()
+		sh.closed = true
+	}
+	guard := 3 * time.Second
+	if neverEnding > 0 { // a retry loop that never ends was already reported in this process: do not pay 3 s again
+		guard = 100 * time.Millisecond
+	}
+	deadline := time.Now().Add(guard)
+	for !done() && time.Now().Before(deadline) {
+		time.Sleep(50 * time.Microsecond)
+	}
+	fin := "forever"
+	if done() {
+		_, fin = t.Done()
+	} else {
+		r.hit(site, "does-not-terminate", fmt.Sprintf("%s is still retrying (3 s guard) after %s", site, map[bool]string{true: "room was made", false: "the queue was closed"}[resolvePop]))
+		r.dead = "leaked-retry-loop"
+		neverEnding++
+	}
+	switch {
+	case resolvePop && fin == "ok":
+		*lst = append(*lst, x) // accepted at the back once there was room
+	case resolvePop && fin != "forever":
+		r.hit(site, "result", fmt.Sprintf("%s returned %s after room was made on an open queue", site, fin))
+	case !resolvePop && fin != "closed" && fin != "forever":
+		r.hit(site, "closed-queue-accepts-add", fmt.Sprintf("%s returned %s after the queue was closed", site, fin))
+		if fin == "ok" {
+			*lst = append(*lst, x)
+		}
+	}
+	return "spun:[" + strings.Join(popped, ",") + "]:" + fin
 }
 
 // checkPop: monitors for a pop-like result. drains = the call hands out residue after close (PopAnyway, SyncQueue).
@@ -745,6 +957,18 @@ func genScript(r *rng.R, kind string, n int) corr.Case {
 		case i == closeAt:
 			l = "close"
 			closed = true
+		case k < 8 && kind != "syncq":
+			// the *Anyway adds: mostly resolved by popping (the history goes on), sometimes by closing
+			op := "addany "
+			if kind == "mq" && r.Chance(1, 3) {
+				op = "addcany "
+			}
+			res := " p"
+			if r.Chance(1, 6) {
+				res = " c" // closes the queue if the add has to wait (the generator does not know whether it will)
+			}
+			l = op + item() + res
+			size++
 		case k < 30:
 			l = "add " + item()
 			size++
@@ -780,7 +1004,14 @@ func genScript(r *rng.R, kind string, n int) corr.Case {
 			l = r.Pick("tryclose", "tryclear", "tryclear", "cleared?")
 		case k < 94 && kind == "syncq":
 			l = r.Pick("len", "trypop")
-		case k < 96:
+		case k < 93 && kind == "async":
+			l = "size?"
+		case k < 94 && (kind == "mux" || kind == "mq"):
+			l = "waitclose"
+			if kind == "mq" && r.Chance(1, 3) {
+				l = "waitclear"
+			}
+		case k < 96 && kind != "q" && kind != "syncq":
 			l = "closed?"
 		default:
 			l = "add " + item()
@@ -836,7 +1067,7 @@ func genDrain(r *rng.R, kind string) corr.Case {
 	return corr.Case{Tag: "drain-" + kind, Lines: lines}
 }
 
-var junk = []string{"add", "add x", "add 1 2", "add -1", "prior", "pop 1", "popany x", "close now", "foo", "new", "new q", "new q x",
+var junk = []string{"addany 1", "addany 1 x", "addany x p", "addcany 2 p", "addany 3 p", "size?", "waitclose", "waitclear", "waitclose 1", "add", "add x", "add 1 2", "add -1", "prior", "pop 1", "popany x", "close now", "foo", "new", "new q", "new q x",
 	"new mq 1", "new priq", "new syncq 3", "push 1", "push 1 x", "push x 1", "len 1", "trypop", "tryclose", "tryclear", "cleared?",
 	"closed?", "len", "addc 1", "priorc 2", "push 3 1", "popany", "prior 4", "new heap 3", "ADD 1", "add 1a"}
 
@@ -879,6 +1110,15 @@ func fixedCases() []corr.Case {
 		mk("fixed", "new priq 0", "push 1 1", "pop", "len"),
 		mk("fixed", "new priq -1", "push 1 1", "pop"),
 		mk("fixed", "new q 1", "pop", "popany", "add 1", "pop", "pop"),
+		// *Anyway adds: accepted at the back below capacity; wait while full and are accepted at the back once PopAnyway
+		// made room (also after a prior add overfilled the queue); return `closed` on a closed queue, also when that
+		// happens while they wait
+		mk("anyway", "new q 2", "addany 1 p", "addany 2 p", "addany 3 p", "prior 4", "addany 5 p", "popany", "popany", "popany", "close", "addany 6 p", "addany 7 c"),
+		mk("anyway", "new async 1", "size?", "addany 1 c", "addany 2 c", "addany 3 c", "closed?", "popany", "popany"),
+		mk("anyway", "new mux 1", "waitclose", "add 1", "addany 2 p", "addany 3 c", "waitclose", "popany", "popany"),
+		mk("anyway", "new mq 1 1", "addcany 1 p", "addany 2 p", "addcany 3 p", "addany 4 p", "waitclear", "waitclose", "addcany 5 c", "waitclose", "addany 6 p", "popany", "popany", "tryclear", "waitclear"),
+		mk("anyway", "new mq 2 1", "add 1", "addc 2", "priorc 3", "priorc 4", "addany 5 p", "pop", "addcany 6 p"),
+		mk("anyway", "new q 0", "addany 1 p", "addany 2 c", "pop", "close", "addany 3 c"),
 	}
 	return cs
 }
